@@ -7,6 +7,7 @@ import (
 	"fmt"
 	"math/rand"
 	"runtime"
+	"strings"
 	"sync"
 	"sync/atomic"
 	"testing"
@@ -73,9 +74,31 @@ func (r *c11Round) stopped(inst int) {
 type c11Inst struct {
 	round *c11Round
 	id    int
+	abort *c11Abort // non-nil: PreStart honours the spawn context and only ever ends through it
 }
 
-func (a *c11Inst) PreStart(*Context) error { a.round.started(a.id); return nil }
+// c11Abort is the winner of an aborted flight: its PreStart announces itself and
+// then waits for the caller's context, like an actor that connects with the request context.
+type c11Abort struct {
+	once    sync.Once
+	entered chan struct{}
+	calls   atomic.Int64
+}
+
+func (b *c11Abort) wait(ctx context.Context) error {
+	b.calls.Add(1)
+	b.once.Do(func() { close(b.entered) })
+	<-ctx.Done()
+	return ctx.Err()
+}
+
+func (a *c11Inst) PreStart(ctx *Context) error {
+	if a.abort != nil {
+		return a.abort.wait(ctx.Context())
+	}
+	a.round.started(a.id)
+	return nil
+}
 func (a *c11Inst) PostStop(*Context) error { a.round.stopped(a.id); return nil }
 func (a *c11Inst) Receive(*ReceiveContext) {}
 
@@ -107,7 +130,7 @@ func (c c11Call) String() string {
 }
 
 type c11Knobs struct {
-	Kind    string // spawn | func | mixed | child | ctx | kill-race | spawn-after-kill | two-names
+	Kind    string // spawn | func | mixed | child | ctx | kill-race | spawn-after-kill | two-names | abort-spawn | abort-func | abort-child
 	Callers int
 	Dwell   int
 	Procs   int
@@ -118,16 +141,29 @@ func (k c11Knobs) String() string {
 	return fmt.Sprintf("kind=%s callers=%d dwell=%d procs=%d noise=%d", k.Kind, k.Callers, k.Dwell, k.Procs, k.Noise)
 }
 
-var c11Kinds = []string{"spawn", "func", "mixed", "child", "ctx", "kill-race", "spawn-after-kill", "two-names"}
+var c11Kinds = []string{"spawn", "func", "mixed", "child", "ctx", "kill-race", "spawn-after-kill", "two-names", "abort-spawn", "abort-func", "abort-child"}
+
+func c11IsAbort(kind string) bool { return len(kind) > 6 && kind[:6] == "abort-" }
 
 func c11GenKnobs(rng *rand.Rand, i int) c11Knobs {
-	return c11Knobs{
+	k := c11Knobs{
 		Kind:    c11Kinds[i%len(c11Kinds)],
 		Callers: 2 + rng.Intn(7),
 		Dwell:   rng.Intn(4),
 		Procs:   []int{2, 4, 8, 16}[rng.Intn(4)],
 		Noise:   rng.Intn(3),
 	}
+	if c11IsAbort(k.Kind) {
+		// the aborted winner plus at least two callers with healthy contexts; their own
+		// PreStart dwells so that a retry outside the flight would overlap the others
+		if k.Callers < 3 {
+			k.Callers = 3 + rng.Intn(4)
+		}
+		if k.Dwell < 2 {
+			k.Dwell = 2 + rng.Intn(2)
+		}
+	}
+	return k
 }
 
 type c11Finding struct {
@@ -232,11 +268,17 @@ func (e *c11Env) runRound(t *testing.T, k c11Knobs, seed int64) (obs c11Obs) {
 	}
 
 	calls := make([]*c11Call, k.Callers)
+	abort := &c11Abort{entered: make(chan struct{})}
+	abortNow := make(chan struct{})
 	doCall := func(c *c11Call, inst int) {
 		r := rounds[c.Name]
 		ctx, cancel := context.WithCancel(bg)
 		defer cancel()
+		var ab *c11Abort
 		switch c.Ctx {
+		case "aborted-mid-flight":
+			ab = abort
+			go func() { <-abortNow; cancel() }()
 		case "cancelled":
 			cancel()
 		case "soon-cancelled":
@@ -250,13 +292,19 @@ func (e *c11Env) runRound(t *testing.T, k c11Knobs, seed int64) (obs c11Obs) {
 			var err error
 			switch c.API {
 			case "spawn":
-				pid, err = e.sys.Spawn(ctx, c.Name, &c11Inst{round: r, id: inst}, WithLongLived())
+				pid, err = e.sys.Spawn(ctx, c.Name, &c11Inst{round: r, id: inst, abort: ab}, WithLongLived())
 			case "func":
 				pid, err = e.sys.SpawnNamedFromFunc(ctx, c.Name, func(context.Context, any) error { return nil },
-					WithPreStart(func(context.Context) error { r.started(inst); return nil }),
+					WithPreStart(func(pctx context.Context) error {
+						if ab != nil {
+							return ab.wait(pctx)
+						}
+						r.started(inst)
+						return nil
+					}),
 					WithPostStop(func(context.Context) error { r.stopped(inst); return nil }))
 			case "child":
-				pid, err = e.parent.SpawnChild(ctx, c.Name, &c11Inst{round: r, id: inst}, WithLongLived())
+				pid, err = e.parent.SpawnChild(ctx, c.Name, &c11Inst{round: r, id: inst, abort: ab}, WithLongLived())
 			}
 			return err
 		})
@@ -278,8 +326,15 @@ func (e *c11Env) runRound(t *testing.T, k c11Knobs, seed int64) (obs c11Obs) {
 			c.API = "func"
 		case "mixed":
 			c.API = []string{"spawn", "func"}[rng.Intn(2)]
-		case "child":
+		case "child", "abort-child":
 			c.API = "child"
+		case "abort-spawn":
+			c.API = "spawn"
+		case "abort-func":
+			c.API = "func"
+		}
+		if c11IsAbort(k.Kind) && i == 0 {
+			c.Ctx = "aborted-mid-flight"
 		}
 		if k.Kind == "ctx" {
 			c.Ctx = []string{"live", "cancelled", "soon-cancelled", "soon-cancelled"}[rng.Intn(4)]
@@ -370,6 +425,7 @@ func (e *c11Env) runRound(t *testing.T, k c11Knobs, seed int64) (obs c11Obs) {
 			kill()
 		}()
 	}
+	var issued atomic.Int64
 	for i, c := range calls {
 		if i == 0 && inlineFirst {
 			continue
@@ -377,11 +433,28 @@ func (e *c11Env) runRound(t *testing.T, k c11Knobs, seed int64) (obs c11Obs) {
 		wg.Add(1)
 		go func(i int, c *c11Call) {
 			defer wg.Done()
-			<-start
+			if !(i == 0 && c11IsAbort(k.Kind)) {
+				<-start
+			}
+			issued.Add(1)
 			doCall(c, i)
 		}(i, c)
 	}
-	close(start)
+	if c11IsAbort(k.Kind) {
+		// the winner's flight is open once its PreStart waits for the context; the healthy
+		// callers then join it, and only then the winner's context is cancelled
+		select {
+		case <-abort.entered:
+		case <-time.After(30 * time.Second):
+			obs.Watchdog = "the winner's PreStart was not entered within 30s"
+		}
+		close(start)
+		verifrt.WaitUntil(20*time.Second, func() bool { return issued.Load() == int64(len(calls)) })
+		time.Sleep(time.Duration(1+rng.Intn(4)) * time.Millisecond)
+		close(abortNow)
+	} else {
+		close(start)
+	}
 	done := make(chan struct{})
 	go func() { wg.Wait(); fwg.Wait(); close(done) }()
 	select {
@@ -416,6 +489,11 @@ func (e *c11Env) runRound(t *testing.T, k c11Knobs, seed int64) (obs c11Obs) {
 		if c.Panic != "" {
 			add("panic-in-call:"+c.API+":"+k.Kind, "%s panicked: %s", c.String(), c.Panic)
 		}
+	}
+	if c11IsAbort(k.Kind) {
+		w := calls[0]
+		obs.Aborted = abort.calls.Load() > 0 && (strings.Contains(w.Err, "context canceled") || strings.Contains(w.Err, "deadline exceeded"))
+		obs.Calls = append(obs.Calls, fmt.Sprintf("winner PreStart invocations (each waited for the caller's context): %d", abort.calls.Load()))
 	}
 	for name, r := range rounds {
 		obs.PreStarts += r.pre.Load()
